@@ -396,7 +396,7 @@ def table_cells():
 class C10(fw.Property):
     id = "C10"
     coq_props = "Props/C10.v"
-    gen_jobs = []
+    gen_jobs = ["c03_constants", "c14_message_id"]     # round 7: constants + message-ID successor tie (Proofs/C10Tie.v)
     model_imports = ["Verif.Model.C10"]
     quick_budget = 420
     thorough_budget = 24000
